@@ -40,6 +40,9 @@ proofs/FragRun.vos proofs/FragRun.vok proofs/FragRun.required_vos: proofs/FragRu
 proofs/Policy.vo proofs/Policy.glob proofs/Policy.v.beautified proofs/Policy.required_vo: proofs/Policy.v gen/Consts.vo model/Base.vo model/Types.vo model/Header.vo model/Ext.vo model/Encap.vo proofs/Tactics.vo proofs/BaseLemmas.vo proofs/HeaderLemmas.vo proofs/EncapSpec.vo proofs/EncapProps.vo
 proofs/Policy.vio: proofs/Policy.v gen/Consts.vio model/Base.vio model/Types.vio model/Header.vio model/Ext.vio model/Encap.vio proofs/Tactics.vio proofs/BaseLemmas.vio proofs/HeaderLemmas.vio proofs/EncapSpec.vio proofs/EncapProps.vio
 proofs/Policy.vos proofs/Policy.vok proofs/Policy.required_vos: proofs/Policy.v gen/Consts.vos model/Base.vos model/Types.vos model/Header.vos model/Ext.vos model/Encap.vos proofs/Tactics.vos proofs/BaseLemmas.vos proofs/HeaderLemmas.vos proofs/EncapSpec.vos proofs/EncapProps.vos
+proofs/MemoryLemmas.vo proofs/MemoryLemmas.glob proofs/MemoryLemmas.v.beautified proofs/MemoryLemmas.required_vo: proofs/MemoryLemmas.v gen/Consts.vo model/Base.vo model/Types.vo model/Ext.vo model/Memory.vo proofs/Tactics.vo proofs/BaseLemmas.vo
+proofs/MemoryLemmas.vio: proofs/MemoryLemmas.v gen/Consts.vio model/Base.vio model/Types.vio model/Ext.vio model/Memory.vio proofs/Tactics.vio proofs/BaseLemmas.vio
+proofs/MemoryLemmas.vos proofs/MemoryLemmas.vok proofs/MemoryLemmas.required_vos: proofs/MemoryLemmas.v gen/Consts.vos model/Base.vos model/Types.vos model/Ext.vos model/Memory.vos proofs/Tactics.vos proofs/BaseLemmas.vos
 props/C14.vo props/C14.glob props/C14.v.beautified props/C14.required_vo: props/C14.v model/Base.vo model/Types.vo model/Header.vo proofs/HeaderLemmas.vo
 props/C14.vio: props/C14.v model/Base.vio model/Types.vio model/Header.vio proofs/HeaderLemmas.vio
 props/C14.vos props/C14.vok props/C14.required_vos: props/C14.v model/Base.vos model/Types.vos model/Header.vos proofs/HeaderLemmas.vos
@@ -61,6 +64,9 @@ props/C18.vos props/C18.vok props/C18.required_vos: props/C18.v model/Base.vos m
 props/C15.vo props/C15.glob props/C15.v.beautified props/C15.required_vo: props/C15.v model/Base.vo model/Types.vo model/Ext.vo model/Encap.vo proofs/Tactics.vo proofs/EncapSpec.vo proofs/EncapProps.vo proofs/Policy.vo
 props/C15.vio: props/C15.v model/Base.vio model/Types.vio model/Ext.vio model/Encap.vio proofs/Tactics.vio proofs/EncapSpec.vio proofs/EncapProps.vio proofs/Policy.vio
 props/C15.vos props/C15.vok props/C15.required_vos: props/C15.v model/Base.vos model/Types.vos model/Ext.vos model/Encap.vos proofs/Tactics.vos proofs/EncapSpec.vos proofs/EncapProps.vos proofs/Policy.vos
+props/C17.vo props/C17.glob props/C17.v.beautified props/C17.required_vo: props/C17.v model/Base.vo model/Types.vo model/Ext.vo model/Memory.vo proofs/Tactics.vo proofs/BaseLemmas.vo proofs/MemoryLemmas.vo
+props/C17.vio: props/C17.v model/Base.vio model/Types.vio model/Ext.vio model/Memory.vio proofs/Tactics.vio proofs/BaseLemmas.vio proofs/MemoryLemmas.vio
+props/C17.vos props/C17.vok props/C17.required_vos: props/C17.v model/Base.vos model/Types.vos model/Ext.vos model/Memory.vos proofs/Tactics.vos proofs/BaseLemmas.vos proofs/MemoryLemmas.vos
 model/Crc.vo model/Crc.glob model/Crc.v.beautified model/Crc.required_vo: model/Crc.v gen/Consts.vo gen/CrcTable.vo model/Base.vo
 model/Crc.vio: model/Crc.v gen/Consts.vio gen/CrcTable.vio model/Base.vio
 model/Crc.vos model/Crc.vok model/Crc.required_vos: model/Crc.v gen/Consts.vos gen/CrcTable.vos model/Base.vos
